@@ -774,7 +774,7 @@ def run(ctx, res):
     res.guard(kernels, prog, res)
     n = pair_reader(prog, res, f)
     from .. import runtimerules as RR
-    res.guard(RR.rule_consume, prog, res, "process_data", "iterate")
+    res.guard(RR.rule_consume_file, prog, res, "process_data", "iterate")
     if n < 1:
         raise AnalysisBroken("process_data no longer maps its reader")
     res.require_min("O-INIT-RMW", 1)
